@@ -58,6 +58,35 @@ CHECKS = {
    note=SIM_NOTE),
 }
 
+PURE_NOTE = "Trusted base: the engine source under harness/src/bin and harness/src/{util,wire}.rs. Verdict = held on the inputs/executions of this run."
+CHECKS.update({
+ "C06": dict(engine="c06", cat="exploration", ref="DESIGN.md 4/C06",
+   tech="runtime monitoring with sanitizer-style oracles: hostile byte strings fed to the real server App one per frame under catch_unwind, a counting global allocator (largest / total request per message), process-death detection by the driver, overflow-check (debug-assert) and release lanes, service check through a well-behaved client",
+   text="Exhaustive over all byte strings of length <=2 (quick) / <=3 (thorough) per channel and sender, structure-aware generation beyond (inflated length fields, boundary entity bits, truncation, over-long varints, batches interleaved with legitimate traffic and connects/disconnects). A panic escaping App::update, an allocation request out of proportion, a dead worker process, or a well-behaved client that stops converging are violations. Both arithmetic lanes run because overflow behaviour differs between them.",
+   note=PURE_NOTE + " Exhaustiveness holds only for the short-input blocks; everything longer is sampled. Miri/valgrind lanes are auxiliary (DESIGN.md 3.6)."),
+ "C13": dict(engine="c13", cat="exploration", ref="DESIGN.md 4/C13",
+   tech="runtime monitoring: single-App state machine over {singleplayer, listen server, client connecting/connected, dedicated server} with per-event handling counters (remote sends decoded from RepliconClient::drain_sent + local observations by in-app readers/observers)",
+   text="Random interleavings of status transitions and emissions (events/triggers, with/without targets, all send modes incl. SERVER); per event remote+local handlings must be exactly one on the path selected by the state at its processing frame, local sender must be SERVER, nothing may be put on the network without a connection, no panic.",
+   note=PURE_NOTE),
+ "C14": dict(engine="c14", cat="exploration", ref="DESIGN.md 4/C14",
+   tech="runtime monitoring: generated registration sequences and all their single-step edits hashed by freshly built Apps (and by a second process), equality oracle hash-equality <=> sequence-equality; ProtocolCheck handshake outcome monitor",
+   text="Sequences of 0..8 registration actions out of 25 plus every neighbour swap, deletion, insertion and replacement; equal sequences must hash equal in-process and across processes, different ones must differ; per case two real handshakes (equal and edited pair) check authorization / mismatch notification / disconnect request.",
+   note=PURE_NOTE + " A genuine 64-bit collision would show up as a violation; none is expected at this scale."),
+ "C15": dict(engine="c15", cat="exploration", ref="DESIGN.md 4/C15",
+   tech="runtime monitoring of the public codec functions: round trip + exact consumption over boundary classes x random identifiers with trailing bytes; totality over byte strings (exhaustive <=2/<=3 bytes, random/mutated <=12) under catch_unwind, cross-checked with an independent decoder; release + overflow-check lanes",
+   text="Every decoded identifier must be valid and agree with the documented format, every valid identifier must survive, the decoder must consume exactly the encoder's bytes when embedded in a longer buffer, and no byte string may panic the decoder (overflow checks on in the checked lane).",
+   note=PURE_NOTE),
+ "C17": dict(engine="c17", cat="exploration", ref="DESIGN.md 4/C17",
+   tech="runtime monitoring over real loopback sockets: sequence-numbered independent events with content-derived payloads, per-channel exactly-once/order/payload oracle, TCP-order markers to tell loss from delay",
+   text="Two Apps connected through the example backend; 1..60 messages per channel pile up between two receiver frames in both directions on four channels; the received per-channel sequence must equal the sent one and payloads must be intact. A case whose markers do not arrive is inconclusive, never a violation.",
+   note=PURE_NOTE + " Loopback only; kernel scheduling is outside the harness' control, so schedules are not replayable bit for bit (the seed fixes the workload, not the timing)."),
+ "C18": dict(engine="c18", cat="exploration", ref="DESIGN.md 4/C18",
+   tech="runtime monitoring of scene::replicate_into against the harness' own evaluation of the rule set, plus serialize + read-back of every exported scene",
+   text="Random worlds x rule sets (overlapping single/bundle/custom-priority rules over reflected, unregistered, unreflected types; marked and unmarked entities; pre-populated scenes); exactly one scene entity per marked entity, exactly the selected reflected components once each with their values, no marker, and the RON round trip must succeed.",
+   note=PURE_NOTE),
+})
+CHECKS["C12"]["engine"] = "sim+c12m"
+
 NOT_YET = {}
 
 def main():
@@ -103,7 +132,15 @@ def main():
         json.dump(man, f, indent=1)
     print("wrote MANIFEST.json with", len(checks), "checks,", len(na), "not_applicable")
 
-EXTRA_ENGINES = []
+EXTRA_ENGINES = [
+    ("sim+c12m", "harness/src/bin/c12m.rs", "C12: simulator with mutate-message tracking (end to end) + set-model engine for ConfirmHistory / ServerMutateTicks / RepliconTick"),
+    ("c06", "harness/src/bin/c06.rs", "hostile-input engine with counting allocator and service check"),
+    ("c13", "harness/src/bin/c13.rs", "single-App configuration state machine"),
+    ("c14", "harness/src/bin/c14.rs", "registration-sequence / protocol-hash / handshake engine"),
+    ("c15", "harness/src/bin/c15.rs", "entity codec engine"),
+    ("c17", "harness/src/bin/c17.rs", "example backend over loopback sockets"),
+    ("c18", "harness/src/bin/c18.rs", "scene export engine"),
+]
 
 if __name__ == "__main__":
     main()
